@@ -438,6 +438,25 @@ def witnesses(ctx):
                 found += ctx.violation("%s: deviation %.3g (fd_order %d)" % (what, err, order),
                                        {"kind": "input", "oracle": what, "key": key, "witness": True, "fd_order": order},
                                        {"site": key, "oracle": what})
+    # de Sitter in flat slicing (T = 0, Lambda = 3 H^2; exact on the grid: all fields constant): a = 2, H = 1/2.
+    # With the documented option vacuum=True ("no matter") AND the solution's own Lambda the constraint must vanish.
+    fd = aurel.FiniteDifference(p, fd_order=4, verbose=False)
+    one, zero = np.ones(fd.x.shape), np.zeros(fd.x.shape)
+    I3 = np.array([[one, zero, zero], [zero, one, zero], [zero, zero, one]])
+    for vac in (False, True):
+        rel = aurel.AurelCore(fd, verbose=False, vacuum=vac, Lambda=0.75)
+        rel.data["gammadown3"] = 4 * I3
+        rel.data["Kdown3"] = -2 * I3
+        rel.freeze_data()
+        for key, exact in (("Hamiltonian", 0.0), ("dtKtrace", 0.0)):      # K = -3H is constant in time
+            ctx.count("oracle_evaluations")
+            err = float(np.max(np.abs(np.asarray(rel[key]) - exact)))
+            if not err <= 1e-11:
+                found += 1 if ctx.violation(
+                    "de Sitter (T = 0, Lambda = 0.75) with AurelCore(vacuum=%s, Lambda=0.75): %s = %.3g, exact value 0 "
+                    "(the vacuum shortcut drops the Lambda term)" % (vac, key, err),
+                    {"kind": "input", "oracle": "de Sitter witness", "key": key, "witness": True, "vacuum": vac, "Lambda": 0.75},
+                    {"kind": "vacuum_flag_ignores_Lambda"} if vac else {"site": key, "oracle": "de Sitter witness"}) else 0
     return found
 
 
